@@ -70,8 +70,8 @@ pub struct Record {
     pub id: u8,
     #[serde(default, skip_serializing_if = "::std::vec::Vec::is_empty")]
     pub list: ::std::vec::Vec<u8>,
-    #[serde(default, skip_serializing_if = "::std::vec::Vec::is_empty")]
-    pub tags: ::std::vec::Vec<::std::string::String>,
+    #[serde(default, skip_serializing_if = "::std::option::Option::is_none")]
+    pub tags: ::std::option::Option<::std::vec::Vec<::std::string::String>>,
 }
 impl ::std::convert::From<&Record> for Record {
     fn from(value: &Record) -> Self {
